@@ -536,6 +536,14 @@ func c10Cases(env vk.Env) []vk.Case {
 		}
 		cs = append(cs, vk.Case{ID: fmt.Sprintf("%s/%s/independent-aux", sys.name, class), Run: func(t *vk.T) { c10Run(t, zkSystems[si], class, 100, env.Thorough()) }})
 	}
+	for i := 0; i < env.Pick(2, 20); i++ {
+		i := i
+		cs = append(cs, vk.Case{ID: fmt.Sprintf("sch/witnessless-identity/%d", i), Run: func(t *vk.T) { c10SchDegenerate(t, i) }})
+	}
+	for ei := 0; ei < nenv; ei++ {
+		ei := ei
+		cs = append(cs, vk.Case{ID: fmt.Sprintf("prm/challenge-monitor/env%d", ei), Run: func(t *vk.T) { c10PrmChallenges(t, ei, env.Pick(48, 96)) }})
+	}
 	return cs
 }
 
